@@ -4,7 +4,7 @@ CONSTANTS
   Level = 2
   MaxChain = 1
   Pads = {0,1,2,3,4,5,6,7}
-  Caps = {24,16384}
-  MaxRead = 0
+  Caps = {16384}
+  MaxRead = 4
 INVARIANTS SegInv NotStuck CrossInv
 CHECK_DEADLOCK FALSE
